@@ -25,7 +25,7 @@ func init() {
 			"{iK := gen.new(0|2), iK := iJ.new(1), iK := iJ (alias), iJ.next, iJ.A, iJ@{..}, iJ$(0)+ (thorough), lim := 1|5} on <=3 iterator variables; states = model states reached, transitions = operations; " +
 			"freshness (no model): for 7 literals incl. ones that keep progress in body-local assignments or threaded keyword arguments, every history of <=3 (thorough 4) operations over 9 (next, A, chains, _iter copy, new, advancing the literal itself) followed by b := a.new(args) and c := gen.new(args): both must yield exactly what a first iterator yielded; " +
 			"every path is one program on the real interpreter and every observation along it (value / StopIterErr / collected list) is compared with the model; A and chains are generated only where the model proves the iteration finite; " +
-			"non-trivial = path touching >=2 iterator objects or containing a chain/A; distinct = distinct operation sequence; round 7: A factory family: an iterator literal written inside a function (keyword default from the scope, body reading the scope, threaded keyword, literal in a chain block) is evaluated for every sequence of <=3 (thorough 4) of 6 uses; expected values follow from arithmetic.",
+			"non-trivial = path touching >=2 iterator objects or containing a chain/A; distinct = distinct operation sequence; round 7: A factory family: an iterator literal written inside a function (keyword default from the scope, body reading the scope, threaded keyword, literal in a chain block) is evaluated for every sequence of <=3 (thorough 4) of 6 uses; expected values follow from arithmetic.; round 8: Property-call chains (`@S`, `@nil?`) run over iterators that yield nil; a cross family lets the body of a chain over a (lengths 0..4) step a sibling iterator b (lengths 0..5) in 5 chain forms: the StopIterErr of the body comes out, a is not advanced.",
 		Assumptions: []string{
 			"bodies without any yield (value of the body unspecified by the statement) are not generated",
 			"histories are not merged: iterators are compared through complete paths, so sharing of hidden state between aliases/copies cannot be abstracted away",
